@@ -183,6 +183,14 @@ def build_unit(u, scr, workdir, tier, trace=False):
         cmd += ['--trace']
     rc, out, err, s = sh(cmd, cap)
     r.secs['cbmc'] = s
+    # default pointer encoding has 8 object bits (fast); widen only on demand
+    for bits in ('10', '12'):
+        if rc != 'timeout' and 'too many addressed objects' in (out + err) \
+                and 'object_bits' not in u:
+            cmd = [c for c in cmd if c not in ('--object-bits', '10')] + \
+                ['--object-bits', bits]
+            rc, out, err, s = sh(cmd, cap)
+            r.secs['cbmc'] += s
     r.cmds.append(' '.join(cmd))
     if rc == 'timeout':
         r.reason = 'cbmc time-out after %ds' % cap
